@@ -11,18 +11,15 @@ Theorem rollback_durable : forall st r,
   s_fs st' = Idle /\ s_bc st' = 0 /\ ram_synced st' /\ s_kv st' = s_kv st.
 Proof.
   intros st r HI Hr Hok. destruct Hr as [| |s bc|s]; unfold step in *.
-  - destruct (expire st false) as [st'|] eqn:E; cbn [fst snd] in *; [|discriminate].
-    pose proof (expire_spec _ _ _ HI E) as (? & ? & ? & ? & _). auto.
+  - cbn [fst]. pose proof (expire_spec st None HI) as (? & ? & ? & ? & _). auto.
   - cbn [fst]. unfold boot, ram_synced, cfg_eq. sp. auto.
   - destruct (sess_ctx st s) as [[sfab p]|]; cbn [fst snd] in *; [|discriminate].
     destruct (negb (allowed st sfab p)); cbn [fst snd] in *; [discriminate|].
-    rewrite N.eqb_refl in *.
-    destruct (expire st p) as [st'|] eqn:E; cbn [fst snd] in *; [|discriminate].
-    pose proof (expire_spec _ _ _ HI E) as (? & ? & ? & ? & _). auto.
+    rewrite N.eqb_refl in *. cbn [fst].
+    pose proof (expire_spec st (Some s) HI) as (? & ? & ? & ? & _). auto.
   - destruct (sess_ctx st s) as [[sfab p]|]; cbn [fst snd] in *; [|discriminate].
     destruct (negb (allowed st sfab p)); cbn [fst snd] in *; [discriminate|].
-    destruct (expire st p) as [st'|] eqn:E; cbn [fst snd] in *; [|discriminate].
-    pose proof (expire_spec _ _ _ HI E) as (? & ? & ? & Hs & _). unfold ram_synced in *. sp. auto.
+    pose proof (expire_spec st (Some s) HI) as (? & ? & ? & Hs & _). unfold ram_synced in *. sp. auto.
 Qed.
 
 (** a power loss before the first store of CommissioningComplete is a restart *)
@@ -35,19 +32,12 @@ Proof.
 Qed.
 
 (** ** B. Only CommissioningComplete and ACL writes outside the fail-safe context write the store *)
-Lemma expire_kv : forall st k st', expire st k = Some st' -> s_kv st' = s_kv st.
-Proof.
-  intros st k st' H. unfold expire in H.
-  destruct (s_fs st) as [|f fl]; [inversion H; reflexivity|].
-  destruct (f =? 0).
-  - inversion H; reflexivity.
-  - destruct (fget f (s_fabs st)); inversion H; reflexivity.
-Qed.
+Lemma expire_kv : forall st c, s_kv (expire st c) = s_kv st.
+Proof. intros st c. unfold expire. destruct (s_fs st); reflexivity. Qed.
 
 Ltac frz :=
   unfold step; dm; cbn [fst]; sp; try reflexivity;
-  try (eapply expire_kv; eassumption);
-  try (erewrite expire_kv by eassumption; reflexivity).
+  try (rewrite expire_kv; reflexivity).
 
 Theorem store_frozen : forall st o,
   may_store st o = false -> s_kv (fst (step st o)) = s_kv st.
@@ -63,6 +53,7 @@ Proof.
     apply negb_false_iff in H.
     dm; cbn [fst]; sp; try reflexivity.
     all: congruence.
+  - frz.
   - frz.
   - frz.
   - frz.
@@ -234,4 +225,22 @@ Proof.
   all: unfold step; try unfold complete_body.
   all: dm; cbn [fst snd]; try (split; [discriminate|reflexivity]).
   all: rewrite Hwa in *; discriminate.
+Qed.
+
+(** ** A rollback that removes the fabric of the context (no stored copy to reload) leaves no
+    usable CASE session on its index: the index is handed out again by the next commissioning. *)
+Lemma cget_cset : forall f b l, cget f (cset f b l) = Some b.
+Proof. intros f b l. unfold cget, cset. cbn [find fst snd]. rewrite N.eqb_refl. reflexivity. Qed.
+
+Theorem rollback_drops_case_session : forall st c f fl,
+  s_fs st = Armed f fl -> f <> 0 -> fget f (k_fabs (s_kv st)) = None ->
+  sess_ctx (expire st c) (SC f) = None /\ fget f (s_fabs (expire st c)) = None.
+Proof.
+  intros st c f fl Hf Hnz Hk. unfold expire. rewrite Hf, Hk.
+  apply N.eqb_neq in Hnz. rewrite Hnz. cbn [negb andb]. cbn [sess_ctx s_case s_fabs]. split.
+  - destruct (cget f (s_case st)) as [[|]|] eqn:E.
+    + rewrite cget_cset. reflexivity.
+    + rewrite E. reflexivity.
+    + rewrite cget_cset. reflexivity.
+  - apply fget_fdel_same.
 Qed.
